@@ -416,6 +416,21 @@ func (x *Exec) havocArgCells(fr *Frame, st *State, args []Value) {
 				st.cells[ad.Cell] = x.fresh(ad.ElemT, "arg."+ad.Cell.Comment)
 			}
 		}
+		// a closure handed to the callee may be run by it any number of times (range-over-func
+		// iterators, callbacks): the variables it captures by reference and everything its body
+		// may modify are unknown afterwards
+		if fv, ok := a.(VFunc); ok && fv.Fn != nil && !x.inSpec {
+			x.havocArgCells(fr, st, fv.Bind)
+			if fv.Fn.Pkg != nil && x.eng.isHome(fv.Fn.Pkg.Pkg) {
+				fs := x.eng.frameOf(fv.Fn)
+				if fs.all {
+					x.havocAll(st)
+				}
+				for _, k := range sortedKeys(fs.keys) {
+					x.havocKey(st, k, fs.keys[k])
+				}
+			}
+		}
 	}
 }
 
